@@ -110,8 +110,9 @@ class StubDecompressor(Native):
         eng.assume(eng.compare(ast.LtE(), r, remaining))
         if not (not is_sym(max_length) and max_length < 0):
             eng.assume(z3.Or(eng.lift(max_length) < 0, eng.lift(r) <= eng.lift(max_length)))
-        # a working decoder on an intact stream makes progress whenever it is asked for >= 1 byte and output remains
-        eng.assume(z3.Implies(z3.And(eng.lift(remaining) > 0, eng.lift(max_length) != 0), eng.lift(r) >= 1))
+        if w.progress != "adversarial":
+            # a working decoder on an intact stream makes progress whenever it is asked for >= 1 byte and output remains
+            eng.assume(z3.Implies(z3.And(eng.lift(remaining) > 0, eng.lift(max_length) != 0), eng.lift(r) >= 1))
         if w.progress == "exhausted-aware":
             # an exhausted decoder answers with nothing, forever: count it so that a spin becomes a finite outcome
             if eng.branch(eng.compare(ast.LtE(), remaining, 0)):
@@ -124,6 +125,11 @@ class StubDecompressor(Native):
             c = self.fresh("c")
             eng.assume(eng.compare(ast.GtE(), c, 0))
             eng.assume(eng.compare(ast.LtE(), eng.binop(ast.Add(), self.consumed, c), self.input_size))
+        if w.progress == "adversarial" and eng.branch(eng.compare(ast.Eq(), r, 0)) and eng.branch(eng.compare(ast.Eq(), c, 0)):
+            # nothing produced, nothing consumed: the caller's loop state is unchanged by this step
+            self.stalls += 1
+            if self.stalls >= 2:
+                raise NoProgress("decoder of folder %d returned nothing and consumed nothing twice in a row" % self.k)
         self.consumed = eng.binop(ast.Add(), self.consumed, c)
         fp.seek(eng, c, 1)
         ch = Chunk(self.k, self.produced, r)
@@ -138,6 +144,46 @@ class StubDecompressor(Native):
 
     def get_digest(self, eng):
         return RangeCrc(self.k, 0, self.produced)
+
+
+class SeqThread(Native):
+    """threading.Thread / multiprocessing.Process stand-in: start() runs the target to completion at once (ONE schedule:
+    it shows what each worker is asked to do, not how workers interleave)"""
+
+    def __init__(self, target=None, args=(), kwargs=None, daemon=None):
+        self.target, self.args, self.kwargs = target, tuple(args), kwargs or {}
+        self.started = self.joined = False
+
+    def start(self, eng):
+        self.started = True
+        f = self.target
+        name = getattr(getattr(f, "func", f), "qualname", "")
+        if name.endswith("reporter"):
+            return None  # the progress reporter thread is examined separately (C18)
+        eng.call_value(f, list(self.args), dict(self.kwargs))
+
+    def join(self, eng, timeout=None):
+        self.joined = True
+
+    def is_alive(self, eng):
+        return False
+
+
+class ExcQueue(Native):
+    def __init__(self):
+        self.items = []
+
+    def put(self, eng, x):
+        self.items.append(x)
+
+    def put_nowait(self, eng, x):
+        self.items.append(x)
+
+    def empty(self, eng):
+        return len(self.items) == 0
+
+    def get(self, eng, *a, **k):
+        return self.items.pop(0)
 
 
 class World:
@@ -220,6 +266,20 @@ def install_read_stubs(eng, world, memory_limit=None):
         eng_.assume(eng_.range_cond(lim, 40))
         return lim
 
+    import builtins
+    import multiprocessing
+    import queue
+    import threading
+
+    eng.models.reg(threading.Thread, lambda e_, **k: SeqThread(**k))
+    eng.models.reg(multiprocessing.Process, lambda e_, **k: SeqThread(**k))
+    eng.models.reg(queue.Queue, lambda e_, *a: ExcQueue())
+
+    def open_by_name(e_, name, mode="r", *a, **k):
+        # the parallel branch re-opens the archive by file name: an independent handle on the same layout
+        return world.reopen(e_)
+
+    eng.models.reg(builtins.open, open_by_name)
     eng.overrides[("py7zr.properties", "get_memory_limit")] = memlimit
     eng.models.reg(time.time, lambda eng_: 0)
     install_crc(eng)
@@ -239,6 +299,16 @@ def setup_read(eng, entries, layout, progress="live", name=None, password=None, 
         data_len = eng.binop(ast.Add(), data_len, p)
     szf, fp = open_for_read(eng, items, data_len, password=password, name=name)
     world.items = items
+    from vf.harness.session import LayoutFile
+
+    world.handles = [fp]
+
+    def reopen(e_):
+        h = LayoutFile(e_, fp.sig, fp.data_len, fp.hdr, name=fp.name)
+        world.handles.append(h)
+        return h
+
+    world.reopen = reopen
     world.pack_start = {}
     pos = eng.binop(ast.Add(), 32, layout.get("packpos", 0))
     for j, p in enumerate(layout.get("packsizes", [])):
